@@ -410,9 +410,9 @@ func c16Worker(task []byte) []byte {
 
 func runC16(r *ev.Run, thorough bool) int {
 	alpha := c16Alphabet()
-	depth := 3
+	depth := 4
 	if thorough {
-		depth = 4
+		depth = 5
 	}
 	var tasks []c16Task
 	states := map[string]bool{}
